@@ -1,4 +1,6 @@
 """C04 -- fluxes are non-negative and actual never exceeds potential."""
+import copy
+
 import numpy as np
 
 from .. import gen
@@ -19,7 +21,7 @@ ASSUMPTIONS = [
 BUDGET = {"quick": 420, "thorough": 5000}
 DENSE = ["Cotton", "CottonGDD", "DryBean", "DryBeanGDD", "Soybean", "SoybeanGDD", "SugarBeet", "SugarBeetGDD", "Sunflower", "SunflowerGDD"]
 ALL = list(gen.CROPS)
-PROFILE = gen.profile(crops=DENSE * 3 + ALL, p_override=0.5, seasons=(1, 2), max_days=800, p_bunds=0.5, p_mulch=0.5, p_fm=0.7,
+PROFILE = gen.profile(crops=DENSE * 3 + ALL, p_override=0.5, p_custom_soil=0.45, ksat_contrast=0.5, seasons=(1, 2), max_days=800, p_bunds=0.5, p_mulch=0.5, p_fm=0.7,
                       p_ffm=0.4, irr=((0, 1), (1, 3), (2, 2), (3, 1), (4, 3), (5, 3)), p_cap=0.1, p_eff=0.4,
                       rain=(("dry", 1), ("mid", 2), ("wet", 2)), iwc=(("FC", 4), ("WP", 1), ("SAT", 2), ("Pct", 1), ("Num", 1), ("Depth", 1)))
 EPS = 1e-9
@@ -91,7 +93,24 @@ def evaluate(cfg):
 
 
 def fixed_cases(tier):
-    return []
+    """Layered fields with a sharp conductivity contrast, (partly) saturated starts and storms on the first days:
+    the constellation in which drainage and infiltration limits of different layers meet."""
+    out = []
+    W = dict(kind="synth", first="2001-04-25", days=260, tmean=20.0, amp=5.0, phase=0, dtr=12.0, et0=4.5, rain_p=0.1, rain_mm=8.0, noise=3,
+             events=[dict(type="storm", day=6, mm=60.0), dict(type="storm", day=7, mm=50.0), dict(type="storm", day=8, mm=40.0),
+                     dict(type="storm", day=40, mm=120.0)])
+    for top, sub in ((15.0, 500.0), (2.0, 2200.0), (500.0, 5.0), (1200.0, 15.0)):
+        for vals in (["SAT", "SAT", "WP"], ["SAT", "SAT", "SAT"], ["FC", "SAT", "FC"], ["WP", "SAT", "SAT"]):
+            for crop, irr in (("Maize", dict(method=0)), ("Wheat", dict(method=4, NetIrrSMT=70.0))):
+                layers = [dict(kind="hyd", wp=0.32, fc=0.50, sat=0.54, ksat=top, pen=100, thickness=0.1),
+                          dict(kind="hyd", wp=0.15, fc=0.31, sat=0.46, ksat=sub, pen=100, thickness=0.5),
+                          dict(kind="hyd", wp=0.15, fc=0.31, sat=0.46, ksat=sub, pen=100, thickness=4.6)]
+                cfg = dict(start="2001/05/01", end="2001/12/20", off_season=True, crop=dict(name=crop, planting="05/01", harvest=None, overrides={}),
+                           soil=dict(type="custom", args={"cn": 75.0}, layers=layers),
+                           iwc=dict(wc_type="Prop", method="Layer", depth_layer=[1, 2, 3], value=vals), irr=irr, fm=None, ffm=None, gw=None, co2=None,
+                           weather=copy.deepcopy(W))
+                out.append(("crust-%g-%g-%s-%s" % (top, sub, "".join(v[0] for v in vals), crop), cfg))
+    return out
 
 
 simplifications = cfg_simplifications
